@@ -178,6 +178,49 @@ def bundled():
     return _BUNDLED_CACHE
 
 
+# rule MODIFIERS delegating to each other through bare rule references: what an atomic rule
+# does with its inner pairs depends on the modifier of the rule its body names (and, through a
+# silent rule, of the rule THAT names) -- resolved per parser, and differently with and without
+# the optimizer's inlining, so anything resolved once and kept on a shared Rule object shows
+P_MOD = r"""
+WHITESPACE = _{ " " }
+d    = { "x" }
+cc   = ${ d ~ d }
+nn   = !{ d ~ d }
+pl   = { d ~ d }
+sb   = _{ cc }
+sn   = _{ nn }
+sp   = _{ pl }
+a_sb = @{ sb }
+a_sn = @{ sn }
+a_sp = @{ sp }
+a_cc = @{ cc }
+a_nn = @{ nn }
+a_pl = @{ pl }
+c_sb = ${ sb }
+c_pl = ${ pl }
+c_nn = ${ nn }
+n_at = !{ a_pl ~ a_cc }
+top  = { a_sb ~ a_sn | c_sb ~ n_at }
+"""
+P_MOD_CALLS = [(r, t) for r in ("a_sb", "a_sn", "a_sp", "a_cc", "a_nn", "c_sb", "c_nn", "n_at", "top") for t in ("xx", "x x", "xxxx", "xx x x")] + [("a_pl", "xx"), ("c_pl", "xx"), ("top", "xx xx"), ("n_at", "xx xx")]
+
+# case-insensitive literals whose matching depends on HOW the pattern is compiled (simple vs
+# full case folding: U+00DF / "SS", the fi ligature, title-case digraphs, the Kelvin sign) and
+# literals that are special inside a regex set -- sensitive to process-wide switches of the
+# `regex` module and to anything that re-compiles or re-escapes a pattern
+P_FOLD = r"""
+WHITESPACE = _{ " " }
+ci   = { ^"maß" ~ ASCII_DIGIT? }
+ci2  = { ^"ﬁn" | ^"straße" | ^"ǆ" }
+cis  = { (^"ǆ" | ^"i̇" | ^"k")+ }
+pun  = { ("[" | "]" | "-" | "^" | "\\" | "." | "a")+ }
+unit = ${ ^"maß" ~ " " ~ ASCII_DIGIT }
+kel  = { ^"\u{212a}" ~ 'a'..'z'* }
+"""
+P_FOLD_CALLS = [("ci", "MASS3"), ("ci", "maß 3"), ("ci", "MAß"), ("ci", "mas"), ("ci2", "FIN"), ("ci2", "ﬁN"), ("ci2", "STRASSE"), ("ci2", "Straße"), ("ci2", "ǅ"), ("ci2", "Ǆ"),
+                ("cis", "Ǆǅk"), ("cis", "İ"), ("cis", "i̇K"), ("cis", "K"), ("pun", "[a-]^\\."), ("pun", "b"), ("unit", "MASS 3"), ("unit", "maß 3"), ("unit", "Maß3"), ("kel", "kelvin"), ("kel", "Kx")]
+
 FIXED = {
     # "overflow": inputs nested far beyond the interpreter's recursion budget -- the isolated
     # reference is RecursionError, and stays so whatever happened before
@@ -187,6 +230,8 @@ FIXED = {
     "P-builtin2": {"text": P_BUILTIN2, "calls": P_BUILTIN2_CALLS},
     "P-twin1": {"text": P_TWIN1, "calls": P_TWIN1_CALLS},
     "P-twin2": {"text": P_TWIN2, "calls": P_TWIN2_CALLS},
+    "P-mod": {"text": P_MOD, "calls": P_MOD_CALLS},
+    "P-fold": {"text": P_FOLD, "calls": P_FOLD_CALLS},
 }
 
 # ------------------------------------------------------------------- random grammars
@@ -297,3 +342,55 @@ def mutate_input(rng: random.Random, text: str) -> str:
     if r < 0.8:
         return text[:i] + rng.choice("x1 ,]}\"\n") + text[i + 1 :]
     return text[:i]
+
+
+def corrupt_grammar(rng: random.Random, text: str) -> str:
+    """A grammar text the front end will (most likely) reject part way through: what a user
+    gets wrong while editing -- a truncated file, a stray or missing character, a rule defined
+    twice, a reference to a rule that does not exist, a bad escape or range."""
+    r = rng.random()
+    i = rng.randrange(len(text)) if text else 0
+    if r < 0.25:
+        return text[:i]
+    if r < 0.45:
+        return text[:i] + rng.choice("{}()|~\"'\\#@$!^[].") + text[i:]
+    if r < 0.6:
+        return text[:i] + text[i + 1 :]
+    if r < 0.7:
+        lines = [ln for ln in text.splitlines() if " = " in ln and ln.rstrip().endswith("}")]
+        return text + "\n" + (rng.choice(lines) if lines else "a = { \"a\" }\na = { \"b\" }") + "\n"
+    if r < 0.8:
+        return text + "\nzz_bad = { \"a\" ~ no_such_rule_xyz }\n"
+    if r < 0.9:
+        return text + "\n" + rng.choice(("zz_bad = { \"\\q\" }", "zz_bad = { 'z'..'a' }", "zz_bad = { \"\\u{110000}\" }", "zz_bad = { PEEK[1..] ~ #t = \"a\" }", "zz_bad = { \"a\"{2,1} }", "ANY = { \"a\" }", "zz_bad = {", "zz_bad = { 'ab'..'c' }")) + "\n"
+    return text[:i] + text[i:].swapcase()
+
+
+# A grammar text that starts with this comment line is loaded through a Parser SUBCLASS with its
+# own BUILTIN table (Parser.BUILTIN is a class attribute that from_grammar hands to the front
+# end).  The marker makes the variant part of the grammar text, hence of every call key, every
+# reference request and every replay file.
+ALT_MARK = "//@alt-builtins\n"
+
+
+def alt_builtin_table(parser_cls) -> dict:
+    """Stock built-ins with a few names re-bound to OTHER stock rule objects and a few extra
+    names that pool grammars define themselves (public pieces only: no rule is constructed)."""
+    b = parser_cls.BUILTIN
+    return {**b, "NEWLINE": b["ASCII_DIGIT"], "ASCII_ALPHA": b["ASCII_ALPHANUMERIC"], "ASCII_HEX_DIGIT": b["ASCII_OCT_DIGIT"],
+            "first": b["ASCII_DIGIT"], "item": b["ASCII_HEX_DIGIT"], "near": b["ANY"], "WORD": b["ASCII_ALPHA"], "value": b["ASCII_DIGIT"], "id": b["ASCII_ALPHA"]}
+
+
+def parser_class_for(gtext: str, base):
+    """The class a grammar text is loaded with: `base`, or (marker present) a subclass of it
+    with the alternative built-in table."""
+    if not gtext.startswith(ALT_MARK):
+        return base
+    cache = parser_class_for.__dict__.setdefault("cache", {})
+    if base not in cache:
+        cache[base] = type("AltBuiltinParser", (base,), {"BUILTIN": alt_builtin_table(base)})
+    return cache[base]
+
+
+def alt_variant(g: dict) -> dict:
+    return {**g, "text": ALT_MARK + g["text"]}
